@@ -25,6 +25,7 @@ INVARIANTS = ("TypeOK C18_TxStatementOnTxMaster C18_OneConnPerSlice C18_EndReach
 STATE_INVARIANTS = "TypeOK C19_NoLeak C19_NoDangling C19_NothingHeldOutsideTx C19_NoOpenTxInPool C19_EndClean C23_PinnedRole ModeSeparation"
 
 ALL_FOPS = '{"get", "sync", "begin", "setac", "init", "exec", "commit", "rollback", "ping"}'
+END_FOPS = '{"commit", "rollback", "setac"}'
 CORE_FOPS = '{"get", "begin", "setac", "exec", "commit", "rollback", "ping"}'
 
 CONSTS = """CONSTANTS
@@ -255,8 +256,10 @@ class Family:
                     counts[fa] = counts.get(fa, 0) + 1
                 if x.get("ord"):
                     counts["order-dependent"] = counts.get("order-dependent", 0) + 1
-            if sample is not None and rng.random() >= sample:
-                return
+            if sample is not None:
+                pr = sample(c) if callable(sample) else sample
+                if rng.random() >= pr:
+                    return
             k = key_of(c)
             if k in seen:
                 return
@@ -270,7 +273,8 @@ class Family:
         else:
             r = ctx.tlc("SessionConn_gen", "sc_gen.cfg", extra_files={"sc_gen.cfg": cfg}, timeout=timeout, case_sink=sink,
                         keep_cases=False, label="all behaviours of <=%d commands + session end, <=%d fault%s" %
-                        (length, faults, "" if sample is None else ", %.0f%% sampled for replay" % (100 * sample)))
+                        (length, faults, "" if sample is None else ", sampled for replay" if callable(sample) else
+                         ", %.0f%% sampled for replay" % (100 * sample)))
         ctx.log("generated", len(cases), "behaviours (length %d%s)" % (length, ", simulated" if sim else ""), r.stats())
         if not cases:
             raise self.vlib.Inconclusive("generation produced no behaviours")
@@ -350,13 +354,14 @@ class Family:
             self.mc(3, ALL_FOPS)
             cases = self.generate(2, CORE_FOPS)
             ctx.sample(cases[len(cases) // 3])
-            # fault-free behaviours one command longer (begin / statement / commit / next statement ...): there the
-            # expected state is fully determined by the property texts and every difference is a verdict
-            nf3 = self.generate(3, "{}", sample=0.3, faults=0)
+            # behaviours one command longer (begin / statement / commit ...), fault-free or with a fault in the command that
+            # ends the transaction (COMMIT / ROLLBACK / SET autocommit).  In the fault-free ones the expected state is fully
+            # determined by the property texts and every difference is a verdict.
+            nf3 = self.generate(3, END_FOPS, sample=lambda c: 0.5 if any(x["f"]["op"] != "none" for x in c["cmds"]) else 0.3)
             ctx.sample(nf3[len(nf3) // 2])
             sims = self.generate(5, ALL_FOPS, sim=120, ns=2)
             ctx.sample(sims[0])
-            self.replay(cases + known_cases + nf3 + sims, "bfs2+bfs3nofault+sim5", 800)
+            self.replay(cases + known_cases + nf3 + sims, "bfs2+bfs3endfault+sim5", 800)
             self.validate_clean(700)
             self.validate_rejected_sample(2)
         else:
